@@ -962,10 +962,10 @@ def o_int2d(chk, dadi, inp):
     e = masserr(got, exp, sc)
     if e > tol:
         key = 'Cache2D.integrate:quadrature'
-        for nm, v in parts.items():
-            if ext and nm != 'interior' and masserr(got, exp - theta * v, sc) <= tol:
-                key += ':%s-missing' % nm
-                break
+        if ext:      # which single exterior contribution, if left out, explains the result best
+            cand = sorted((masserr(got, exp - theta * v, sc), nm) for nm, v in parts.items() if nm != 'interior')
+            if cand and cand[0][0] <= tol:
+                key += ':%s-missing' % cand[0][1]
         chk.fail(key, 'Cache2D.integrate differs from theta*(interior double trapezoid + 4 edges + 4 corners): rel err %.3g' % e,
                  dict(inp, got=small(got), expected=small(exp), contributions={k: small(v, 2) for k, v in parts.items()}))
     g1 = data_of(c.integrate(params, None, sel, 1.0, None, exterior_int=ext))
